@@ -278,6 +278,11 @@ def _apply_leaf(base, leaf):
     if k == "test":
         f = TEST_FNS[leaf[1]]
         args = [parse_val(a) for a in leaf[2:]]
+        if leaf[1] == "timege" and len(leaf[2]) % 2 == 0:
+            # the standard library's operator as the user's test function (same meaning on datetimes)
+            import operator
+
+            f = operator.ge
         return base.test(f, *args)
     if k == "map":
         g = map_fn(leaf[1][0], [parse_val(a) for a in leaf[1][1:]])
